@@ -29,21 +29,27 @@ Theorem C02_short_plain :
 Proof. exact split_short_plain. Qed.
 Print Assumptions C02_short_plain.
 
-(* -cvalue where the value contains `=`: everything after the first byte, `=` included *)
+(* -cvalue where the value contains `=`: everything after the first character, `=` included *)
 Theorem C02_short_adj_eq :
   forall c v1 v2, (c <? 128)%N = true -> (c =? c_dash)%N = false -> no_eq v1 -> v1 <> [] ->
     split_os_argument (c_dash :: c :: v1 ++ c_eq :: v2) = Some (ATShort, [c], Some (v1 ++ c_eq :: v2)).
 Proof. exact split_short_adj_eq. Qed.
 Print Assumptions C02_short_adj_eq.
 
-(* The full statement for non-ASCII short names is FALSE of the faithful model (and of the code):
-   `-ж=1` is not recognised.  Witness, replayed on the implementation = known finding
-   C02-short-eq-multibyte. *)
-Theorem C02_short_eq_multibyte_refuted :
-  exists c1 c2 v, utf8_valid [c1; c2] = true /\
-                  split_os_argument (c_dash :: c1 :: c2 :: c_eq :: v) = None.
-Proof. exact split_short_eq_multibyte_refuted. Qed.
-Print Assumptions C02_short_eq_multibyte_refuted.
+(* ... and for short names of ANY character, one to four bytes long (true after the fix: commit in /repo: before it the
+   name was cut after its first BYTE and `-ж=1` was not recognised at all -- the former known finding
+   C02-short-eq-multibyte, then the `_refuted` theorem of this file): `-X=value` gives the name X and every byte after
+   the `=` *)
+Theorem C02_short_eq_any_char :
+  forall n v ch,
+    utf8_decode n = Some [ch] -> (hd 0%N n =? c_dash)%N = false ->
+    split_os_argument (c_dash :: n ++ c_eq :: v) = Some (ATShort, n, Some v).
+Proof. exact split_short_eq_char. Qed.
+Print Assumptions C02_short_eq_any_char.
+
+Example C02_example_cyrillic_short :
+  split_os_argument [45; 208; 182; 61; 49]%N = Some (ATShort, [208; 182]%N, Some [49%N]).
+Proof. exact split_short_eq_cyrillic. Qed.
 
 (* -abc = -a -b -c when every letter is a declared flag and none is also an argument *)
 Theorem C02_cluster :
